@@ -4,7 +4,7 @@
 From Coq Require Import ZArith Reals List Lra Lia.
 From Coquelicot Require Import Coquelicot.
 From FF Require Import Base.Ops Inst.RInst Inst.Param Base.RAlg Model.Numeric Model.SecondOrder Model.Consts
-     Model.Tie.C10 Proofs.Foi Proofs.SecondOrder Proofs.SecondOrderAsm Proofs.SecondOrderInt Proofs.SecondOrderEncl.
+     Model.Tie.C10 Proofs.Foi Proofs.SecondOrder Proofs.SecondOrderAsm Proofs.SecondOrderInt Proofs.SecondOrderGlue Proofs.SecondOrderTrace Proofs.SecondOrderHerm Proofs.SecondOrderEncl Proofs.CMBase.
 Import ListNotations.
 Local Open Scope R_scope.
 
@@ -60,6 +60,22 @@ Theorem C10_F2_plus_adjoint : forall d thr omega basis nopers evs Vs Qs ncoeffs 
 Proof. exact F2_plus_adjoint. Qed.
 Print Assumptions C10_F2_plus_adjoint.
 
+(* The Hermiticity hypothesis is necessary: for the 1x1 "basis element" i (two idle segments, w = 0) every other
+   hypothesis holds and the identity fails (0 vs 4) -- the same-segment term uses B_ak(t), the cross term conj(step). *)
+Theorem C10_F2_plus_adjoint_needs_hermitian :
+  let d := 1%nat in let thr := 0 in let omega := [0] in let basis := [w_iC] in let nopers := [w_I1] in
+  let evs := [[0];[0]] in let Vs := [w_I1;w_I1] in let Qs := [w_I1;w_I1;w_I1] in
+  let ncoeffs := [[1;1]] in let dts := [1;1] in let ts := [0;1;2] in
+  let F2 := second_order_ff RO d thr evs Vs Qs omega basis nopers ncoeffs dts ts (None, None) in
+  let Bm := control_matrix_from_scratch RO d thr evs Vs Qs omega basis nopers ncoeffs dts ts in
+  0 <= thr /\ (forall N, In N nopers -> fherm d (toF N)) /\
+  length evs = length dts /\ length Vs = length dts /\ (length dts <= length Qs)%nat /\ (length dts <= length ts)%nat /\
+  length ncoeffs = length nopers /\ no_taylor d thr omega evs dts 0 /\
+  cadd' (a5get RO F2 0 0 0 0 0) (cconj' (a5get RO F2 0 0 0 0 0)) <>
+  cmul' (cconj' (a3get RO Bm 0 0 0)) (a3get RO Bm 0 0 0).
+Proof. exact F2_plus_adjoint_needs_hermitian. Qed.
+Print Assumptions C10_F2_plus_adjoint_needs_hermitian.
+
 (* Both code paths (cached intermediates: all, only n_opers_transformed, only the frequency-dependent ones)
    define the value computed from scratch. *)
 Theorem C10_intermediates_irrelevant : forall d thr omega basis nopers evs Vs Qs ncoeffs dts ts im,
@@ -90,6 +106,44 @@ Theorem C10_F2_assembly_partial : forall d thr omega basis nopers evs Vs Qs ncoe
 Proof. exact F2_assembly_partial. Qed.
 Print Assumptions C10_F2_assembly_partial.
 
+(* F2_assembly: the model's second-order filter function is the nested time-ordered double integral
+     F2_ab,kl(w) = int_0^tau e^{-i w t} B_ak(t) ( int_0^t e^{i w t'} B_bl(t') dt' ) dt
+   of the piecewise time-domain control matrix Bpw (segment g: beta^g(t - t_g), real for Hermitian operators),
+   for every number of segments, durations >= 0 (zero-length segments included), every frequency that keeps the
+   first-order integrals off their Taylor branch (exact resonances included). *)
+Theorem C10_F2_assembly : forall d thr omega basis nopers evs Vs Qs ncoeffs dts a b k l o,
+  0 <= thr ->
+  (forall N, In N nopers -> fherm d (toF N)) -> (forall Ck, In Ck basis -> fherm d (toF Ck)) ->
+  length evs = length dts -> length Vs = length dts -> (length dts <= length Qs)%nat ->
+  length ncoeffs = length nopers ->
+  (forall dt, In dt dts -> 0 <= dt) ->
+  (a < length nopers)%nat -> (b < length nopers)%nat -> (k < length basis)%nat -> (l < length basis)%nat ->
+  (o < length omega)%nat ->
+  no_taylor d thr omega evs dts o ->
+  let ts := times RO dts in
+  let segs := fresh_segs d thr omega basis nopers evs Vs Qs ts dts (transpose_coeffs RO (length dts) ncoeffs) in
+  let w := vg RO omega o in
+  let tau := sumlist RO dts in
+  let F2 := second_order_ff RO d thr evs Vs Qs omega basis nopers ncoeffs dts ts (None, None) in
+  exists Gam : R -> Cx,
+    (forall t, 0 <= t <= tau ->
+       is_CInt (fun t' => cmul' (cexp' (w * t')) (Bpw d b l segs 0 t')) 0 t (Gam t)) /\
+    is_CInt (fun t => cmul' (cmul' (cexp' (- w * t)) (Bpw d a k segs 0 t)) (Gam t)) 0 tau (a5get RO F2 a b k l o).
+Proof. exact F2_assembly. Qed.
+Print Assumptions C10_F2_assembly.
+
+(* The time-domain control matrix of the statements above in trace form:
+   beta_ak(u) = s_a tr( U(u)^dagger N_a U(u) C_k ), U(u) = V e^{-iDu} V^dagger Q (no unitarity assumed). *)
+Theorem C10_seg_beta_trace : forall d (ev : list R) (V Q : Mat (T:=R)) (dt : R) (nopers basis : list (Mat (T:=R)))
+    (nc : list R) (step : Arr3 (T:=R)) a k u,
+  length nc = length nopers -> (a < length nopers)%nat -> (k < length basis)%nat ->
+  let s : SegData (T:=R) := (ev, dt, so_NT RO d V nopers nc, so_BT RO d V Q basis, step) in
+  beta d (seg_ev s) (seg_X s a k) u =
+  cscal RO (vg RO nc a)
+        (mtrprod RO d (transform_by_unitary RO d (Useg d ev V Q u) (nth a nopers [])) (nth k basis [])).
+Proof. exact seg_beta_trace. Qed.
+Print Assumptions C10_seg_beta_trace.
+
 (* The interval evaluation run by the correspondence check encloses the real-valued model (paramcoq). *)
 Definition C10_enclosure := F2_enclosure_B.
 (* Print Assumptions C10_enclosure lists, besides the Reals axioms, the primitive 63-bit integer axioms of Coq (BigZ). *)
@@ -110,7 +164,7 @@ Example C10_hypotheses_satisfiable :
   (forall N, In N nopers -> fherm d (toF N)) /\ (forall Ck, In Ck basis -> fherm d (toF Ck)) /\
   length evs = length dts /\ length Vs = length dts /\
   (length dts <= length Qs)%nat /\ (length dts <= length ts)%nat /\ length ncoeffs = length nopers /\
-  no_taylor d thr omega evs dts 0 /\
+  no_taylor d thr omega evs dts 0 /\ (forall dt, In dt dts -> 0 <= dt) /\
   valid_interm d thr omega basis nopers evs Vs Qs ncoeffs dts ts
     (cached_intermediates RO d thr evs Vs Qs omega basis nopers ncoeffs dts ts).
 Proof.
@@ -123,6 +177,7 @@ Proof.
     + left. ring.
     + right. rewrite Rabs_right; lra.
     + right. rewrite Rabs_right; lra.
+  - intros dt [<-|[]]. lra.
   - right; reflexivity.
   - right; reflexivity.
 Qed.
